@@ -5,6 +5,7 @@ import (
 	"strings"
 	"testing"
 
+	"github.com/privacybydesign/gabi"
 	"github.com/privacybydesign/gabi/big"
 	"github.com/privacybydesign/gabi/gabikeys"
 	"pgregory.net/rapid"
@@ -85,6 +86,9 @@ func execC02Bubble(r *kernel.Run, s C02Spec) {
 	secret := newSecret()
 	var live []*BuiltSession
 	var proofStrs [][]string
+	// object pool: every proof decoded exactly once; "object-reuse" deliveries hand the verifier the
+	// same decoded objects again under another tuple (verification caches inside the proof objects)
+	pool := map[string]gabi.Proof{}
 	for i, cs := range s.Sessions {
 		ctx, nonce := randBits(w.hr, 160+w.hr.IntN(90)), randBits(w.hr, 60+w.hr.IntN(60))
 		bs := w.BuildSession(keys, []*big.Int{secret}, cs.Builders, ctx, nonce, cs.IsSig)
@@ -95,6 +99,11 @@ func execC02Bubble(r *kernel.Run, s C02Spec) {
 			ps = append(ps, string(kernel.Encode(p)))
 		}
 		proofStrs = append(proofStrs, ps)
+		var dec gabi.ProofList
+		mustUnmarshal(bs.Wire, &dec)
+		for k, p := range dec {
+			pool[ps[k]] = p
+		}
 		r.Logf("session %d: %d proofs sig=%v", i, len(bs.List), cs.IsSig)
 		r.Distinct(fmt.Sprintf("session shape %+v sig=%v", cs.Builders, cs.IsSig))
 	}
@@ -126,6 +135,24 @@ func execC02Bubble(r *kernel.Run, s C02Spec) {
 		}
 		if v.Accepted {
 			r.Violate("C02:accepted-foreign-session:"+kind, det, "%s: list verifies although the tuple differs from the one it was made for", id)
+		}
+		// the same decoded objects verified again under this tuple
+		var objs gabi.ProofList
+		for _, ps := range proofs {
+			if o, ok := pool[ps]; ok {
+				objs = append(objs, o)
+			}
+		}
+		if len(objs) == len(proofs) && len(objs) > 0 {
+			r.Eval(1)
+			r.Fault("object-reuse")
+			vo := verifyObj(objs, Session{Context: context, Nonce: nonce, IsSig: issig, Keys: ks})
+			if vo.Accepted && !same {
+				r.Violate("C02:accepted-foreign-session:"+kind+":object-reuse", det, "%s: already verified proof objects verify again under a different tuple", id)
+			}
+			if !vo.Accepted && same && vo.Panic == "" && !v.Ambiguous {
+				r.Violate("C02:own-session-rejected:object-reuse", det, "%s: proof objects rejected on re-verification in their own session", id)
+			}
 		}
 	}
 
